@@ -690,6 +690,13 @@ func (P) Gen(r *core.Rand, tier string, emit func([]string)) {
 	for i := 0; i < stalls; i++ {
 		emit(genStallCase(r, tier))
 	}
+	pxs := 12
+	if tier == "thorough" {
+		pxs = 150
+	}
+	for i := 0; i < pxs; i++ {
+		emit(genPxCase(r))
+	}
 	for i := 0; i < logs; i++ {
 		emit(genLogCase(r, tier))
 	}
